@@ -297,6 +297,19 @@ func (fc *FnCtx) evalIdent(x *ast.Ident, env *Env) Val {
 	case "nil":
 		return Val{K: KInt, S: "0", T: types.Typ[types.UntypedNil]}
 	}
+	if env.loop != nil && env.lookup != nil && !env.inOld {
+		// a parameter that the loop reassigns (`for len(pattern) > 0 { ...; pattern = pattern[1:] }`):
+		// in an invariant of that loop its name denotes the loop-carried value; old(...) gives
+		// the value it had on entry
+		if pv, isParam := fc.params[x.Name]; isParam {
+			if cur, same := env.vars[x.Name]; same && cur.S == pv.S && cur.K == pv.K {
+				fc.lastRole = ""
+				if v, ok := env.lookup(x.Name); ok && strings.HasPrefix(fc.lastRole, "phi:") {
+					return v
+				}
+			}
+		}
+	}
 	if env.loop != nil && fc.frameParent != nil && fc.loopSpecBase >= 0 {
 		// an invariant of the function under contract, evaluated at a loop that was moved into
 		// this (inlined) helper: the helper's own loop-carried variables come first (the loop
